@@ -1,6 +1,11 @@
 """Shared implementation-side code for C04 / C05 / C10: runs the real FKMNonlinearDetector with stub
-notch laws whose values are small integers (exact in double arithmetic) and canonicalises the
-recorder's collective."""
+notch laws and canonicalises the recorder's collective.
+
+The stub laws are exact in double arithmetic on what the checks feed: integer loads (small levels, and
+the near-tie levels around 1e6 / 5e5 of NEAR_TIE_LEVELS, whose products stay far below 2**53) for the
+correspondence with the integer Lean model; in oracle-only cases also non-integer doubles (C04 'float'
+cases: dyadic loads whose ranges differ by 2**-7 .. 2**-33; C05 'fratio' cases: positive non-integer
+load factors such as 1.3 or 1e-3, where batch and single run round the same products the same way)."""
 import itertools
 import math
 
